@@ -146,8 +146,24 @@ func Exec(root filesystem.Filespace, op treefs.Op) (r Result) {
 	case "Writer":
 		w, e := fs.Writer(op.P)
 		seterr(e)
-		if e == nil {
+		if e == nil && op.Via == "copy" {
+			// io.Copy prefers the destination's ReadFrom when it has one
+			if _, we := io.Copy(w, strings.NewReader(strings.Join(op.Chunks, ""))); we != nil {
+				seterr(we)
+			}
+			if ce := w.Close(); ce != nil && r.Err == "" {
+				seterr(ce)
+			}
+		} else if e == nil {
 			for _, c := range op.Chunks {
+				if op.Via == "string" {
+					// io.WriteString prefers the destination's WriteString when it has one
+					if _, we := io.WriteString(w, c); we != nil {
+						seterr(we)
+						break
+					}
+					continue
+				}
 				b := []byte(c)
 				n, we := w.Write(b)
 				scribble(b)
